@@ -637,6 +637,23 @@ fn harvest(seed: u64, corpus: &mut Corpus, notes: &mut Vec<String>) {
         }
     }
     let members: Vec<usize> = (0..hist.w.members.len()).filter(|i| hist.w.members[*i].group.is_some()).collect();
+    // a ratchet with skipped (out-of-order) generations: the last of three application messages is delivered alone, so the
+    // receivers' stored state holds the keys of the two skipped ones
+    if members.len() >= 2 {
+        let (s, rest) = (members[0], &members[1..]);
+        let mut last = None;
+        for _ in 0..3 {
+            if let (_, Some(m)) = hist.w.with_group(s, |g| g.encrypt_application_message(b"skip", vec![])) {
+                last = Some(m);
+            }
+        }
+        if let Some(m) = last {
+            for &r in rest.iter().take(3) {
+                let mm = m.clone();
+                hist.w.with_group(r, |g| g.process_incoming_message(mm));
+            }
+        }
+    }
     for &i in members.iter().take(4) {
         let kp = hist.w.members[i].client.generate_key_package_message(Default::default(), Default::default(), None);
         if let Ok(kp) = kp {
@@ -692,6 +709,9 @@ fn harvest(seed: u64, corpus: &mut Corpus, notes: &mut Vec<String>) {
     }
     let _ = std::fs::remove_dir_all("/tmp/vharness-scratch-c12");
 }
+
+/// state (never sent on the wire) containing hash maps: re-encoding may permute entries
+const UNORDERED_STATE: [&str; 4] = ["Snapshot", "ExternalSnapshot", "PriorEpoch", "PendingCommitSnapshot"];
 
 /// refined decoders that have their own model (Model/CodecCustom): compared exactly, no `decx`
 const EXACT_REFINED: [&str; 2] = ["LeafIndex", "ExtensionList"];
@@ -866,7 +886,10 @@ pub fn run(o: &Opts) -> i32 {
         *by_type.entry(name).or_default() += 1;
         let ans = guarded_probe(name, bytes, &mut st, "produced");
         let want = format!("ok {} {} same", bytes.len(), bytes.len());
-        if ans != want {
+        // stored state holds unordered maps (ratchet history, proposal cache, tree index) whose iteration order is not part of the
+        // value: the round trip returns the same value and the same number of bytes, not necessarily the same byte order
+        let want_unordered = format!("ok {} {} diff", bytes.len(), bytes.len());
+        if ans != want && !(UNORDERED_STATE.contains(name) && ans == want_unordered) {
             st.fail(format!("{name}: a value the library produced does not round-trip exactly: got `{ans}`, want `{want}`: {}", hex(&bytes[..bytes.len().min(80)])));
         }
         if modelled.contains(*name) {
